@@ -147,7 +147,7 @@ def call(fn):
 
 
 # ------------------------------------------------------------------ histories: every cache populated, then an edit without update
-EDITS = ["prune", "move", "reroot", "tips", "scale", "edge"]
+EDITS = ["prune", "move", "reroot", "tips", "scale", "edge", "strip", "strip", "grow", "grow"]
 
 
 def stale_instance(dendropy, case, nested, nl, sc):
@@ -197,6 +197,36 @@ def stale_instance(dendropy, case, nested, nl, sc):
             el = x._edge.length
             l1 = unit if el >= 2 * unit else 0.0
             _, r = call(lambda: t.reroot_at_edge(x._edge, length1=l1, length2=el - l1, update_bipartitions=False))
+        elif kind == "strip":
+            # an internal node loses all its children and becomes a tip (half of the time its edge is lengthened by the
+            # length of the path to its former first tip, so that an ultrametric tree stays ultrametric)
+            cand = [x for x in inner if x._parent_node is not None]
+            if not cand:
+                continue
+            x = rng.choice(cand)
+            ext, y = 0.0, x
+            while y._child_nodes:
+                y = y._child_nodes[0]
+                ext += y._edge.length
+            keep = rng.random() < 0.5
+
+            def strip():
+                for ch in list(x._child_nodes):
+                    x.remove_child(ch)
+                if keep:
+                    x._edge.length = x._edge.length + ext
+            _, r = call(strip)
+        elif kind == "grow" and len(order) > 1:
+            # a tip gains two children and becomes internal (its own edge shortened by the same amount when possible)
+            x = rng.choice([lf for lf in leaves if lf._parent_node is not None])
+            a = unit * rng.choice([1, 2, 4])
+
+            def grow():
+                x.new_child(edge_length=a)
+                x.new_child(edge_length=a)
+                if x._edge.length >= a:
+                    x._edge.length = x._edge.length - a
+            _, r = call(grow)
         elif kind == "tips" and len(order) > 1:
             for lf in leaves:
                 lf._edge.length = lf._edge.length + 2 * unit
@@ -255,12 +285,15 @@ def ev_ages(dendropy, case, nested, nl, sc, stale=None):
 
     p0 = precs[0]
     if hist:
-        one("calc_node_ages", p0, 0, False, {})
-        one("calc_node_ages", ("false", None), 0, False, {})
+        for pk in (p0, ("false", None), ("neg", None), ("default", None), ("num", [0, 1])):
+            one("calc_node_ages", pk, 0, False, {})
         one("calc_node_ages", p0, 1, False, {})
         one("calc_node_ages", p0, 2, False, {})
+        one("calc_node_ages", p0, 0, True, {"is_return_internal_node_ages_only": True})
         one("node_ages", p0, 0, False, {})
+        one("node_ages", ("false", None), 1, False, {})
         one("internal_node_ages", p0, 0, True, {})
+        one("internal_node_ages", ("false", None), 2, True, {})
         return {"action": "Ages", "g": b.g, "runs": runs, "hist": hist}
     for pk in precs:
         for force in (0, 1, 2):
@@ -602,7 +635,8 @@ def run(ctx):
                 "perturbed trees and half of the random ones are built at length scale 2^k, k in -7..6, with the precision kept an "
                 "absolute number (ages, gamma(prec)); every unperturbed and random tree is also queried (all statistics, depths, "
                 "lineages, ages) after the history 'encode_bipartitions + calc_node_ages + calc_node_root_distances + "
-                "resolve_node_depths, then prune / move a subtree / reroot_at_edge / lengthen tips / scale_edges / change one edge "
+                "resolve_node_depths, then prune / move a subtree / reroot_at_edge / lengthen tips / scale_edges / change one edge / "
+                "strip an internal node of its children (it becomes a tip) / give a tip two children (it becomes internal) "
                 "without any update' and judged on the tree projected after the edit; "
                 "distinct_nontrivial = distinct (API, options, tree with lengths) on trees with more than one node / "
                 "distinct (statistic, normalisation, tree) that returned a value / distinct (tree, distance) with a positive lineage count"
